@@ -1,7 +1,7 @@
 (* Run/EvalProps.v — per-property projections of the state-machine trace.
    Each property compares only the part of the trace it speaks about, so an
    observable but unrelated rewrite does not alarm properties it does not touch. *)
-Require Export Verif.Run.EvalSM.
+Require Export Verif.Run.EvalSM Verif.Model.Monitors Verif.Proofs.Monitor.
 Open Scope N_scope.
 
 Definition is_metric (f : metric -> bool) (a : action) : bool := match a with AMetric m => f m | _ => false end.
@@ -45,7 +45,8 @@ Definition proj_c18 (a : action) : bool :=
 
 Definition run_c02 := run_sm proj_c02 mon_true.
 Definition run_c04 := run_sm proj_c04 mon_true.
-Definition run_c05 := run_sm proj_c05 mon_true.
+Definition mon_c05 (ep : entry_point) (t : list action) : bool := accepts step5 (init5 ep) t.
+Definition run_c05 := run_sm proj_c05 mon_c05.
 Definition run_c06 := run_sm proj_c06 mon_true.
 Definition run_c07 := run_sm proj_c07 mon_true.
 Definition run_c08 := run_sm proj_c08 mon_true.
